@@ -25,21 +25,21 @@ func verifNewResponse(res *http.Response, withBody bool) (*Response, error) {
 // Every recorded request carries its own URL (the tag), every response its own status: entries
 // are compared by what they contain, never by pointer or by the log's internal representation,
 // so the harness goes through the exported API only.
-var tagSeq int
+var zztagSeq int
 
-func mkReqTag() (*http.Request, string) {
-	tagSeq++
-	p := "/t" + strconv.Itoa(tagSeq)
+func zzmkReqTag() (*http.Request, string) {
+	zztagSeq++
+	p := "/t" + strconv.Itoa(zztagSeq)
 	return &http.Request{Method: "GET", URL: &url.URL{Scheme: "http", Host: "h", Path: p}, Header: http.Header{}, Proto: "HTTP/1.1", ProtoMajor: 1, ProtoMinor: 1}, "http://h" + p
 }
 
-func mkReq() *http.Request { r, _ := mkReqTag(); return r }
+func zzmkReq() *http.Request { r, _ := zzmkReqTag(); return r }
 
-func mkRes(status int) *http.Response {
-	return &http.Response{StatusCode: status, Header: http.Header{}, Proto: "HTTP/1.1", ProtoMajor: 1, ProtoMinor: 1, Body: http.NoBody, Request: mkReq()}
+func zzmkRes(status int) *http.Response {
+	return &http.Response{StatusCode: status, Header: http.Header{}, Proto: "HTTP/1.1", ProtoMajor: 1, ProtoMinor: 1, Body: http.NoBody, Request: zzmkReq()}
 }
 
-type mEntry struct {
+type zzmEntry struct {
 	id     string
 	tag    string // URL of the request recorded under this id
 	done   bool
@@ -50,24 +50,24 @@ type mEntry struct {
 // the given entries in arrival order with the given ids and completion bits. With drained=true
 // the log has a history first: an earlier completed entry that was exported and reset away and
 // an earlier pending one that stays (ids "z0"/"z1", distinct from the symbolic ones).
-func buildState(ids []string, done []bool, drained bool) (*Logger, []mEntry) {
+func zzbuildState(ids []string, done []bool, drained bool) (*Logger, []zzmEntry) {
 	l := NewLogger()
-	var model []mEntry
+	var model []zzmEntry
 	if drained {
-		r0, _ := mkReqTag()
-		r1, t1 := mkReqTag()
+		r0, _ := zzmkReqTag()
+		r1, t1 := zzmkReqTag()
 		l.RecordRequest("z0", r0)
 		l.RecordRequest("z1", r1)
-		l.RecordResponse("z0", mkRes(250))
+		l.RecordResponse("z0", zzmkRes(250))
 		l.ExportAndReset()
-		model = append(model, mEntry{id: "z1", tag: t1})
+		model = append(model, zzmEntry{id: "z1", tag: t1})
 	}
 	for i, id := range ids {
-		r, t := mkReqTag()
+		r, t := zzmkReqTag()
 		vf.Assert(l.RecordRequest(id, r) == nil, "build:request-recorded")
-		m := mEntry{id: id, tag: t}
+		m := zzmEntry{id: id, tag: t}
 		if done[i] {
-			l.RecordResponse(id, mkRes(200+i))
+			l.RecordResponse(id, zzmkRes(200+i))
 			m.done, m.status = true, 200+i
 		}
 		model = append(model, m)
@@ -75,7 +75,7 @@ func buildState(ids []string, done []bool, drained bool) (*Logger, []mEntry) {
 	return l, model
 }
 
-func sameEntry(e *Entry, m mEntry, tag string) {
+func zzsameEntry(e *Entry, m zzmEntry, tag string) {
 	vf.Assert(e != nil && e.ID == m.id, tag+":entry-id")
 	if e == nil {
 		return
@@ -88,21 +88,21 @@ func sameEntry(e *Entry, m mEntry, tag string) {
 }
 
 // checkState: an export lists exactly the model's entries, in arrival order.
-func checkState(l *Logger, model []mEntry, tag string) {
-	sameEntries(l.Export().Log.Entries, model, tag)
+func zzcheckState(l *Logger, model []zzmEntry, tag string) {
+	zzsameEntries(l.Export().Log.Entries, model, tag)
 }
 
-func sameEntries(got []*Entry, want []mEntry, tag string) {
+func zzsameEntries(got []*Entry, want []zzmEntry, tag string) {
 	vf.Assert(len(got) == len(want), tag+":export-length")
 	if len(got) != len(want) {
 		return
 	}
 	for i := range got {
-		sameEntry(got[i], want[i], tag+":export-order")
+		zzsameEntry(got[i], want[i], tag+":export-order")
 	}
 }
 
-func symIDs(n int) []string {
+func zzsymIDs(n int) []string {
 	ids := make([]string, n)
 	for i := range ids {
 		ids[i] = vf.String("id", 2)
@@ -119,20 +119,20 @@ func symIDs(n int) []string {
 // exported operations with or without an earlier export-and-reset.
 func VerifC17Step() {
 	n := vf.Choice("n", vf.Param("entries")+1)
-	ids := symIDs(n)
+	ids := zzsymIDs(n)
 	done := make([]bool, n)
 	for i := range done {
 		done[i] = vf.Bool("done")
 	}
-	l, model := buildState(ids, done, vf.Choice("earlier-export-and-reset", 2) == 1)
-	checkState(l, model, "pre")
+	l, model := zzbuildState(ids, done, vf.Choice("earlier-export-and-reset", 2) == 1)
+	zzcheckState(l, model, "pre")
 
 	op := vf.Choice("op", 5)
 	vf.WatchOn()
 	switch op {
 	case 0: // RecordRequest with an arbitrary id (new or duplicate)
 		id := vf.String("arg", 2)
-		r, t := mkReqTag()
+		r, t := zzmkReqTag()
 		err := l.RecordRequest(id, r)
 		vf.WatchOff()
 		dup := false
@@ -143,16 +143,16 @@ func VerifC17Step() {
 		}
 		if dup {
 			vf.Assert(err != nil, "record-request:duplicate-rejected")
-			checkState(l, model, "record-request-dup")
+			zzcheckState(l, model, "record-request-dup")
 			vf.Reach("dup")
 		} else {
 			vf.Assert(err == nil, "record-request:accepted")
-			checkState(l, append(model, mEntry{id: id, tag: t}), "record-request-new")
+			zzcheckState(l, append(model, zzmEntry{id: id, tag: t}), "record-request-new")
 			vf.Reach("new")
 		}
 	case 1: // RecordResponse with an arbitrary id (known or unknown)
 		id := vf.String("arg", 2)
-		err := l.RecordResponse(id, mkRes(299))
+		err := l.RecordResponse(id, zzmkRes(299))
 		vf.WatchOff()
 		vf.Assert(err == nil, "record-response:no-error")
 		hit := false
@@ -167,17 +167,17 @@ func VerifC17Step() {
 		} else {
 			vf.Reach("unknown-id")
 		}
-		checkState(l, model, "record-response")
+		zzcheckState(l, model, "record-response")
 	case 2:
 		h := l.Export()
 		vf.WatchOff()
-		sameEntries(h.Log.Entries, model, "export")
-		checkState(l, model, "export")
+		zzsameEntries(h.Log.Entries, model, "export")
+		zzcheckState(l, model, "export")
 		vf.Reach("export")
 	case 3:
 		h := l.ExportAndReset()
 		vf.WatchOff()
-		var completed, pending []mEntry
+		var completed, pending []zzmEntry
 		for _, m := range model {
 			if m.done {
 				completed = append(completed, m)
@@ -185,17 +185,17 @@ func VerifC17Step() {
 				pending = append(pending, m)
 			}
 		}
-		sameEntries(h.Log.Entries, completed, "export-and-reset")
-		checkState(l, pending, "export-and-reset")
+		zzsameEntries(h.Log.Entries, completed, "export-and-reset")
+		zzcheckState(l, pending, "export-and-reset")
 		// what was kept is still a working log: a later request is appended after the kept ones
-		r, t := mkReqTag()
+		r, t := zzmkReqTag()
 		vf.Assert(l.RecordRequest("zz", r) == nil, "export-and-reset:log-usable-afterwards")
-		checkState(l, append(pending, mEntry{id: "zz", tag: t}), "after-export-and-reset")
+		zzcheckState(l, append(pending, zzmEntry{id: "zz", tag: t}), "after-export-and-reset")
 		vf.Reach("export-and-reset")
 	case 4:
 		l.Reset()
 		vf.WatchOff()
-		checkState(l, nil, "reset")
+		zzcheckState(l, nil, "reset")
 		vf.Reach("reset")
 	}
 	vf.Reach("done")
@@ -206,7 +206,7 @@ func VerifC17Step() {
 // exactly once over the life of the log").
 func VerifC17Sequence() {
 	l := NewLogger()
-	var model []mEntry
+	var model []zzmEntry
 	exported := map[string]int{}
 	steps := vf.Param("steps")
 	alphabet := []string{"a", "b", "c"}
@@ -214,7 +214,7 @@ func VerifC17Sequence() {
 		switch vf.Choice("op", 5) {
 		case 0:
 			id := alphabet[vf.Choice("id", len(alphabet))]
-			r, t := mkReqTag()
+			r, t := zzmkReqTag()
 			err := l.RecordRequest(id, r)
 			dup := false
 			for _, m := range model {
@@ -224,11 +224,11 @@ func VerifC17Sequence() {
 			}
 			vf.Assert((err != nil) == dup, "seq:duplicate-iff-present")
 			if !dup {
-				model = append(model, mEntry{id: id, tag: t})
+				model = append(model, zzmEntry{id: id, tag: t})
 			}
 		case 1:
 			id := alphabet[vf.Choice("id", len(alphabet))]
-			l.RecordResponse(id, mkRes(300+s))
+			l.RecordResponse(id, zzmkRes(300+s))
 			for i := range model {
 				if model[i].id == id {
 					model[i].done, model[i].status = true, 300+s
@@ -236,10 +236,10 @@ func VerifC17Sequence() {
 			}
 		case 2:
 			h := l.Export()
-			sameEntries(h.Log.Entries, model, "seq-export")
+			zzsameEntries(h.Log.Entries, model, "seq-export")
 		case 3:
 			h := l.ExportAndReset()
-			var completed, pending []mEntry
+			var completed, pending []zzmEntry
 			for _, m := range model {
 				if m.done {
 					completed = append(completed, m)
@@ -247,7 +247,7 @@ func VerifC17Sequence() {
 					pending = append(pending, m)
 				}
 			}
-			sameEntries(h.Log.Entries, completed, "seq-export-and-reset")
+			zzsameEntries(h.Log.Entries, completed, "seq-export-and-reset")
 			for _, e := range h.Log.Entries {
 				if e != nil && e.Request != nil {
 					exported[e.Request.URL]++
@@ -259,24 +259,24 @@ func VerifC17Sequence() {
 			l.Reset()
 			model = nil
 		}
-		checkState(l, model, "seq")
+		zzcheckState(l, model, "seq")
 	}
 	vf.Reach("done")
 }
 
 // ---- concurrent executions against the sequential model ----
 
-type cop struct {
+type zzcop struct {
 	kind int // 0 RecordRequest, 1 RecordResponse, 2 Export, 3 ExportAndReset
 	id   string
 }
 
-type cent struct {
+type zzcent struct {
 	id   string
 	done bool
 }
 
-func render(es []cent) string {
+func zzrender(es []zzcent) string {
 	s := "["
 	for _, e := range es {
 		s += e.id
@@ -289,7 +289,7 @@ func render(es []cent) string {
 }
 
 // capply is the sequential specification of one operation.
-func capply(st []cent, o cop) ([]cent, string) {
+func zzcapply(st []zzcent, o zzcop) ([]zzcent, string) {
 	switch o.kind {
 	case 0:
 		for _, e := range st {
@@ -297,9 +297,9 @@ func capply(st []cent, o cop) ([]cent, string) {
 				return st, "duplicate"
 			}
 		}
-		return append(append([]cent(nil), st...), cent{id: o.id}), "ok"
+		return append(append([]zzcent(nil), st...), zzcent{id: o.id}), "ok"
 	case 1:
-		out := append([]cent(nil), st...)
+		out := append([]zzcent(nil), st...)
 		for i := range out {
 			if out[i].id == o.id {
 				out[i].done = true
@@ -307,9 +307,9 @@ func capply(st []cent, o cop) ([]cent, string) {
 		}
 		return out, ""
 	case 2:
-		return st, render(st)
+		return st, zzrender(st)
 	default:
-		var completed, pending []cent
+		var completed, pending []zzcent
 		for _, e := range st {
 			if e.done {
 				completed = append(completed, e)
@@ -317,32 +317,32 @@ func capply(st []cent, o cop) ([]cent, string) {
 				pending = append(pending, e)
 			}
 		}
-		return pending, render(completed)
+		return pending, zzrender(completed)
 	}
 }
 
-func entriesOf(es []*Entry) []cent {
-	var out []cent
+func zzentriesOf(es []*Entry) []zzcent {
+	var out []zzcent
 	for _, e := range es {
-		out = append(out, cent{id: e.ID, done: e.Response != nil})
+		out = append(out, zzcent{id: e.ID, done: e.Response != nil})
 	}
 	return out
 }
 
-func runReal(l *Logger, o cop) string {
+func zzrunReal(l *Logger, o zzcop) string {
 	switch o.kind {
 	case 0:
-		if l.RecordRequest(o.id, mkReq()) != nil {
+		if l.RecordRequest(o.id, zzmkReq()) != nil {
 			return "duplicate"
 		}
 		return "ok"
 	case 1:
-		l.RecordResponse(o.id, mkRes(200))
+		l.RecordResponse(o.id, zzmkRes(200))
 		return ""
 	case 2:
-		return render(entriesOf(l.Export().Log.Entries))
+		return zzrender(zzentriesOf(l.Export().Log.Entries))
 	default:
-		return render(entriesOf(l.ExportAndReset().Log.Entries))
+		return zzrender(zzentriesOf(l.ExportAndReset().Log.Entries))
 	}
 }
 
@@ -353,14 +353,14 @@ func runReal(l *Logger, o cop) string {
 func VerifC17Concurrent() {
 	ids := []string{"a", "b"}
 	l := NewLogger()
-	var st []cent
+	var st []zzcent
 	if vf.Choice("one-pending-entry-before", 2) == 1 {
-		l.RecordRequest("a", mkReq())
-		st = []cent{{id: "a"}}
+		l.RecordRequest("a", zzmkReq())
+		st = []zzcent{{id: "a"}}
 	}
-	ops := [2]cop{}
-	ops[0] = cop{kind: vf.Choice("first-goroutine-op", 2), id: ids[vf.Choice("id", 2)]}
-	ops[1] = cop{kind: vf.Choice("second-goroutine-op", 4), id: ids[vf.Choice("id", 2)]}
+	ops := [2]zzcop{}
+	ops[0] = zzcop{kind: vf.Choice("first-goroutine-op", 2), id: ids[vf.Choice("id", 2)]}
+	ops[1] = zzcop{kind: vf.Choice("second-goroutine-op", 4), id: ids[vf.Choice("id", 2)]}
 	var got [2]string
 	var wg sync.WaitGroup
 	for k := 0; k < 2; k++ {
@@ -368,20 +368,20 @@ func VerifC17Concurrent() {
 		wg.Add(1)
 		go func() {
 			defer wg.Done()
-			got[k] = runReal(l, ops[k])
+			got[k] = zzrunReal(l, ops[k])
 		}()
 	}
 	wg.Wait()
-	final := render(entriesOf(l.Export().Log.Entries))
+	final := zzrender(zzentriesOf(l.Export().Log.Entries))
 
 	matches := false
 	for _, order := range [][2]int{{0, 1}, {1, 0}} {
 		var want [2]string
 		s := st
 		for _, k := range order {
-			s, want[k] = capply(s, ops[k])
+			s, want[k] = zzcapply(s, ops[k])
 		}
-		if want == got && render(s) == final {
+		if want == got && zzrender(s) == final {
 			matches = true
 		}
 	}
@@ -407,19 +407,19 @@ func VerifC17Handlers() {
 	if vf.Choice("pending-entry", 2) == 1 {
 		ids, done = append(ids, "b"), append(done, false)
 	}
-	l, model := buildState(ids, done, false)
+	l, model := zzbuildState(ids, done, false)
 	method := []string{"GET", "POST", "DELETE", "PUT"}[vf.Choice("method", 4)]
 	reset := vf.Choice("reset-handler", 2) == 1
 	rets := []string{"", "return=true", "return=1", "return=false", "return=bogus"}
 	ret := vf.Choice("return-param", len(rets))
-	w := &hrw{h: http.Header{}, status: 200}
+	w := &zzhrw{h: http.Header{}, status: 200}
 	req := &http.Request{Method: method, URL: &url.URL{Path: "/logs", RawQuery: rets[ret]}, Header: http.Header{}}
 	if reset {
 		NewResetHandler(l).ServeHTTP(w, req)
 	} else {
 		NewExportHandler(l).ServeHTTP(w, req)
 	}
-	var completed, pending []mEntry
+	var completed, pending []zzmEntry
 	for _, m := range model {
 		if m.done {
 			completed = append(completed, m)
@@ -427,7 +427,7 @@ func VerifC17Handlers() {
 			pending = append(pending, m)
 		}
 	}
-	listed := func(want []mEntry) {
+	listed := func(want []zzmEntry) {
 		// the document is JSON with one "startedDateTime" per entry (decoding it back is C16's subject)
 		b := w.body.Bytes()
 		vf.Assert(bytes.HasPrefix(b, []byte(`{"log":{`)), "handler-writes-a-har-document")
@@ -436,34 +436,34 @@ func VerifC17Handlers() {
 	switch {
 	case !reset && method == "GET":
 		listed(model)
-		checkState(l, model, "export-handler")
+		zzcheckState(l, model, "export-handler")
 	case !reset:
 		vf.Assert(w.status == 405, "other-methods-not-allowed")
-		checkState(l, model, "export-handler-405")
+		zzcheckState(l, model, "export-handler-405")
 	case method != "POST" && method != "DELETE":
 		vf.Assert(w.status == 405, "other-methods-not-allowed")
-		checkState(l, model, "reset-handler-405")
+		zzcheckState(l, model, "reset-handler-405")
 	case ret == 4:
 		vf.Assert(w.status == 400, "invalid-return-value-rejected")
-		checkState(l, model, "reset-handler-400")
+		zzcheckState(l, model, "reset-handler-400")
 	case ret == 1 || ret == 2:
 		// export-and-reset: returns exactly the completed entries and keeps the pending ones
 		listed(completed)
-		checkState(l, pending, "reset-handler-return")
+		zzcheckState(l, pending, "reset-handler-return")
 		vf.Reach("export-and-reset")
 	default:
 		vf.Assert(w.status == 204, "reset-answers-204")
-		checkState(l, nil, "reset-handler")
+		zzcheckState(l, nil, "reset-handler")
 	}
 	vf.Reach("done")
 }
 
-type hrw struct {
+type zzhrw struct {
 	h      http.Header
 	status int
 	body   bytes.Buffer
 }
 
-func (w *hrw) Header() http.Header         { return w.h }
-func (w *hrw) Write(b []byte) (int, error) { return w.body.Write(b) }
-func (w *hrw) WriteHeader(s int)           { w.status = s }
+func (w *zzhrw) Header() http.Header         { return w.h }
+func (w *zzhrw) Write(b []byte) (int, error) { return w.body.Write(b) }
+func (w *zzhrw) WriteHeader(s int)           { w.status = s }
